@@ -6,13 +6,16 @@
    kind except import, sessions starting and ending with their grave goods and last wills included); so do the two
    registration tables (C18_all_tables_follow_the_store, Proofs/RedbRegs.v: the grave-goods / last-will entry of every
    client is what its registration key holds, after registering, re-registering, withdrawing by delete or pattern delete
-   -- F28 --, burials that reach other clients' registrations -- F4 --, and session ends).  PARTIAL: imports and the
-   load are in the executable model and compared with the real server, not proved; CAS versions are known finding F13
-   (row_of). *)
+   -- F28 --, burials that reach other clients' registrations -- F4 --, and session ends).  The load
+   (C18_recover_is_a_function_of_the_store, Proofs/RedbRecover.v): what a start makes of the database after any such
+   history is the user part of the store at that point, CAS versions as 1 (F13), with the registered grave goods buried
+   and the registered last wills written, clients in id order.  PARTIAL: imports are in the executable model and
+   compared with the real server, not proved; cuts INSIDE the actions of one request (a session end queues several) are
+   covered by C18_disk_is_prefix and the comparison, not by the load theorem. *)
 From Coq Require Import List.
 Import ListNotations.
 From WB Require Import Base.Str Base.Json Model.Key Model.Consts Model.Store Model.Entry Model.Core Model.Persist Model.Redb Spec.MapSpec
-  Proofs.RedbFacts Proofs.CoreFacts Proofs.LenFacts Proofs.StreamProof Proofs.SessionEnd Proofs.RedbTrack Proofs.RedbSession Proofs.RedbRegs.
+  Proofs.RedbFacts Proofs.CoreFacts Proofs.LenFacts Proofs.StreamProof Proofs.SessionEnd Proofs.RedbTrack Proofs.RedbSession Proofs.RedbRegs Proofs.RedbRecover.
 
 (* every cut the writer can produce: whatever the scheduler lets each wake-up find in the channel, the disk holds the
    result of a prefix of the queued single-key changes, in order; the rest is still queued, in order *)
@@ -104,6 +107,46 @@ Example C18_registrations_nonvacuous :
   c_get 1 (t_gg T) = None /\ c_get 1 (t_lw T) = None /\ c_get 2 (t_gg T) = None /\
   gg_store (final init demo_hist) 1 = None /\ lw_store (final init demo_hist) 1 = None.
 Proof. split; [exact demo_hist_hyps|exact demo_hist_ok]. Qed.
+
+(* the load.  [m_user m]: the entries of m outside the root $SYS, a CAS entry with version 1 (F13); [m_bury]: one
+   pattern deletion (the relation of pget / pdelete) per pattern; [m_wills]: one plain set per last-will entry whose key
+   is a valid key; [registered_pats s] / [registered_wills s]: what the keys $SYS/clients/<id>/graveGoods resp. lastWill
+   of the clients 1..255 decode to in s, in id order.  Hypothesis: the registered patterns have `#` only at the end. *)
+Theorem C18_recover_is_a_function_of_the_store :
+  forall os, reg_hist init os -> no_crash_run init os ->
+    let s := final init os in
+    Forall (fun g => wf_pat (kseg_parse g) = true) (registered_pats s) ->
+    meq (abs (recover (apply_all t_empty (any_actions init os))))
+        (m_wills (m_bury (m_user (abs s)) (registered_pats s)) (registered_wills s)).
+Proof. exact recover_after_history. Qed.
+Print Assumptions C18_recover_is_a_function_of_the_store.
+
+(* ... from tables that follow a store, whatever the history behind them *)
+Theorem C18_recover_spec :
+  forall s t, Inv s -> tracks s t -> RowsOK (t_v2 t) -> abs s [s_SYS] = None ->
+    Forall (fun g => wf_pat (kseg_parse g) = true) (all_pats t) ->
+    Inv (recover t) /\ meq (abs (recover t)) (m_wills (m_bury (m_user (abs s)) (all_pats t)) (all_wills t)).
+Proof. exact recover_spec. Qed.
+Print Assumptions C18_recover_spec.
+
+(* the invariants the load theorem rests on, along every history: rows only for valid keys outside $SYS/ and one per
+   key; registration tables strictly ordered by client id; no request creates the empty key *)
+Theorem C18_history_invariants :
+  forall os s t, Inv s -> LenInv s -> tracks s t -> RegTracks s t -> TabOK t -> abs s [s_SYS] = None -> abs s [[]] = None ->
+    reg_hist s os -> no_crash_run s os ->
+    let s' := final s os in let t' := apply_all t (any_actions s os) in
+    Inv s' /\ tracks s' t' /\ RegTracks s' t' /\ TabOK t' /\ abs s' [s_SYS] = None.
+Proof. exact history_invariants. Qed.
+Print Assumptions C18_history_invariants.
+
+Example C18_recover_nonvacuous :
+  (reg_hist init demo_recover /\ no_crash_run init demo_recover /\
+   Forall (fun g => wf_pat (kseg_parse g) = true) (registered_pats (final init demo_recover))) /\
+  let r := recover (apply_all t_empty (any_actions init demo_recover)) in
+  abs (final init demo_recover) [[120];[97]]%N = Some (Plain (JNum [49]%N)) /\ abs (final init demo_recover) [[121]]%N = Some (Cas (JNum [51]%N) 2%N) /\
+  abs r [[120];[97]]%N = None /\ abs r [[121]]%N = Some (Cas (JNum [51]%N) 1%N) /\ abs r [[119]]%N = Some (Plain (JNum [49]%N)) /\
+  abs r (gg_path 1%N) = None.
+Proof. exact demo_recover_ok. Qed.
 
 Example C18_sessions_nonvacuous :
   let gg1 := topic [s_SYS; s_clients; client_str 1; s_graveGoods] in
